@@ -589,6 +589,42 @@ _enumerated("verif.util.parse_numbers#BOUNDED:every-string-over-the-accepted-alp
             _parse_tokens(), ["verif.util.parse_numbers"])
 
 
+def _parse_foreign():
+    """a vector argument containing any character outside the documented comma/colon decimal syntax is rejected, also when
+    Python's float() would accept the token (1e1, +3, 1_0, nan, inf, ' 1', full-width digits)"""
+    def body():
+        cases = 0
+        good = "1.:,-"
+        foreign = "eE+_naif \t"
+        extra = ["\uff11", "\u0663", "x", "/", ";", "1e1", "+3", "1_0", "nan", "inf", "infinity", "-inf", "NaN", "1E5", "0:2:infinity", "1,nan", "0:inf",
+                 "\uff11\uff12", "1 ", " 1", "1\n", "0x10", "1j", "1e-1", "1.e1", ".e1"]
+        strings = list(extra)
+        for n in range(1, 5):
+            for tup in itertools.product(good + foreign, repeat=n):
+                if any(ch in foreign for ch in tup):
+                    strings.append("".join(tup))
+        for txt in strings:
+            cases += 1
+            for is_date in (False, True):
+                try:
+                    with contextlib.redirect_stdout(io.StringIO()):
+                        r = verif.util.parse_numbers(txt, is_date)
+                    return cases, {"string": txt, "is_date": is_date, "got": "accepted: " + repr(r)[:100]}
+                except SystemExit as e:
+                    if e.code in (0, None):
+                        return cases, {"string": txt, "is_date": is_date, "got": "exit status %r" % (e.code,)}
+                except Exception as e:
+                    return cases, {"string": txt, "is_date": is_date, "got": "%s: %s" % (type(e).__name__, e)}
+        return cases, None
+    return body
+
+
+_enumerated("verif.util.parse_numbers#BOUNDED:every-string-with-a-character-outside-the-documented-syntax-is-rejected", ("C13",),
+            "every string of length 1..4 over {1 . : , -} and {e E + _ n a i f space tab} containing at least one of the latter (exhaustive), plus "
+            "26 tokens that Python's float() accepts (1e1, +3, 1_0, nan, inf, full-width digits, ...): error exit with non-zero status, never a value, never another exception",
+            _parse_foreign(), ["verif.util.parse_numbers"])
+
+
 # ----------------------------------------------------------------------------------------------
 # C17: an appearance option can only take effect if output.py reads the attribute the driver sets
 # ----------------------------------------------------------------------------------------------
